@@ -215,6 +215,27 @@ theorem sub_exact_path (x y : Fmt) (F : Int) (hF : F < max x.nfrac y.nfrac)
   have e : (2:Int) ^ 53 = 2 ^ 52 + 2 ^ 52 := by norm_num
   omega
 
+/-- `x // y` (D50) aligns both operands to fraction length 0 — a code with a negative fraction length is multiplied by `2^-n_frac` —
+under the carrier rule of add/sub/mod evaluated at `n_frac = 0`: whenever that rule keeps the 64-bit integer types, the aligned code
+of every in-range operand code fits them (`≤ 2^61`), for the dividend and for the divisor alike. -/
+theorem floordiv_align_fits (x y : Fmt)
+    (h : Gen.needsPyInt x.signed x.nword x.nint x.nfrac y.signed y.nword y.nint y.nfrac 0 = false)
+    (a b : Int) (ha : x.InRange a) (hb : y.InRange b) :
+    |a * 2 ^ (-x.nfrac).toNat| ≤ 2 ^ 61 ∧ |b * 2 ^ (-y.nfrac).toNat| ≤ 2 ^ 61 := by
+  unfold Gen.needsPyInt at h
+  simp only [Bool.or_eq_false_iff, Bool.and_eq_false_iff, decide_eq_false_iff_not] at h
+  obtain ⟨⟨_, h63⟩, _⟩ := h
+  have bound : ∀ (z : Fmt) (c : Int), z.InRange c → (z.nword : Int) + (-z.nfrac).toNat ≤ 61 → |c * 2 ^ (-z.nfrac).toNat| ≤ 2 ^ 61 := by
+    intro z c hc hz
+    have h1 := abs_le_pow_of_inRange z c hc
+    have : |c * 2 ^ (-z.nfrac).toNat| = |c| * 2 ^ (-z.nfrac).toNat := by
+      rw [abs_mul, abs_of_pos (by positivity : (0:Int) < 2 ^ (-z.nfrac).toNat)]
+    rw [this]
+    calc |c| * 2 ^ (-z.nfrac).toNat ≤ 2 ^ z.nword * 2 ^ (-z.nfrac).toNat := mul_le_mul_of_nonneg_right h1 (by positivity)
+      _ = 2 ^ (z.nword + (-z.nfrac).toNat) := by rw [pow_add]
+      _ ≤ 2 ^ 61 := pow_le_pow_right₀ (by norm_num) (by omega)
+  exact ⟨bound x a ha (by omega), bound y b hb (by omega)⟩
+
 /-! ## Rules of `fxpmath/objects.py` -/
 
 theorem toNat_pred (n : Nat) : ((n : Int) - 1).toNat = n - 1 := by omega
